@@ -243,7 +243,7 @@ def Z(c):
 FN = {
     r'lr_guarded::modify': dict(
         props='C03 C14 C20', setup=W_SETUP,
-        requires=['vf_U == self && g_role == ROLE_WRITER && !self->m_writeMutex.excl_me && self->m_writeMutex.shared_me == 0 && vf_held == 0 && !vf_exc && !vf_assign_threw && '
+        requires=['vf_U == self && g_role == ROLE_WRITER && !self->m_writeMutex.excl_me && self->m_writeMutex.shared_me == 0 && vf_held == 0 && !vf_exc && !vf_assign_threw && !vf_user_threw && '
                   'g_apps == 0 && g_phase == 0 && !g_flipped && self->m_writeMutex.guards == 0 && self->m_left.guard == 0 && self->m_right.guard == 0 && ' + R3],
         ensures=[('C03 C20', '!self->m_writeMutex.excl_me && vf_held == 0', 'writer mutex released on every exit'),
                  ('C03', '!vf_exc ==> (self->m_left.v == g_ver0 + 1 && self->m_right.v == g_ver0 + 1 && !self->m_left.torn && !self->m_right.torn && g_apps == 2)',
@@ -253,6 +253,7 @@ FN = {
                  ('C20', '(vf_exc && !vf_assign_threw && g_apps == 2) ==> (self->m_left.v == g_ver0 + 1 && self->m_right.v == g_ver0 + 1 && !self->m_left.torn && !self->m_right.torn)',
                   'a throw from the second application completes the modification'),
                  ('C20', 'vf_exc ==> (g_apps == 1 || g_apps == 2)', 'only user code throws'),
+                 ('C20', 'vf_user_threw == (vf_exc != 0)', 'the exception is rethrown to the caller after the repair (never swallowed)'),
                  ('', CNT_OK, 'counters')],
         assigns='*self, ' + LR_G,
         loops={
